@@ -57,6 +57,25 @@ CHECKS.update({
                 note=TRUST + "; hook events are emitted inside insert/find/entries while the sub-table lock is held"),
 })
 
+SEARCH_NOTE = TRUST + "; the hooked synchronous entry point runs the same analyze_iterative as the public API; K+R v K / K+Q v K tablebases are accepted only after spec/TbCheck.tla holds at every index slot"
+CHECKS.update({
+    "C03": dict(level=MC, design="3 C03", technique="Search.tla (lazy-SMP negamax over a shared table, line rebuilt from the table) model-checked over all interleavings and all prior tables on abstract games, with a colliding-key configuration as counterexample guard; reports of real searches (1-32 workers, seeded schedules, reused memories built from specification-generated position variants) validated by TLC (SearchTrace.tla) with Legal/Apply",
+                text="LegalLine/ReportBeforeEnd/NoPanic hold in the model for every interleaving of 2 workers and every table an earlier search could leave when keys respect PosKey, and fail (D1 shape) when two nodes share a key; every line reported by ~2 000 (quick) real searches, including sessions that reuse one memory across variants differing only in castling/en-passant state, is replayed move by move against the rules.",
+                note=SEARCH_NOTE),
+    "C04": dict(level=MC, design="3 C04", technique="Search.tla control layer (flag, poll period K, per-iteration counters, uninterruptible first iteration, Stop at any instant) model-checked incl. liveness StopObeyed/Termination, with the pinned loop and pinned assert as counterexample guards; real searches cancelled at exact node indices (hook), terminal roots, tiny trees, public threaded API with Stop/drop - validated by SearchTrace.tla",
+                text="Every Stop instant is enumerated on the model (bounded response, stop obeyed, report before end, no panic, terminal root quiet); on the code the flag is set at every node index of small searches for 1/2/4 workers, mated/stalemated roots from the checked tablebases are searched, tiny trees without depth limit must end through Stop, capture-heavy positions are stopped inside quiescence, and the public API is stopped at sampled instants with the receiver kept or dropped; the returned artifact seeds a following search.",
+                note=SEARCH_NOTE + "; hang-detector limit 5 s after Stop (the code needs milliseconds); a harness without progress is killed and the dangling search judged as timeout"),
+    "C06": dict(level=MC, design="3 C06", technique="Tablebase certificates: untrusted retrograde tables for K+R v K and K+Q v K checked entry by entry by TLC against Chess.tla (TbCheck.tla); Search.tla MateSound/MateFound model-checked under all interleavings of 3 workers; reports of real searches judged by SearchTrace.tla with the checked tables",
+                text="Soundness (a mate claim implies a forced mate and the first move keeps it) and completeness (forced mate in n <= 5 plies found at depth n..n+2 from a fresh memory) are decided exactly on the two complete 3-man families, both colours, 1-32 workers with seeded schedules.",
+                note=SEARCH_NOTE),
+    "C17": dict(level=MC, design="3 C17", technique="Search.tla HistoryHit / RepetitionAvoided model-checked on a game with two mating moves; real searches of tablebase positions with two optimal mating moves and the successor of one recorded (hook, or searched first on the same memory) judged by SearchTrace.tla",
+                text="The model shows the recorded successor is never chosen while mate is still reported; on the code both ways of recording are used (cold table through the hook, warm table as in a game), depth n..n+2, 1-8 workers.",
+                note=SEARCH_NOTE),
+    "C19": dict(level=EX, design="3 C19", technique="Search.tla determinism configuration (one worker, fixed order, no Stop) model-checked; triples of real runs (two in one process, one in another; hooked and public entry points) compared event by event by TLC (SearchTrace!TRepro)",
+                text="The specification's role is thin here (equality of complete event sequences incl. node counts); the substance is the enumeration of positions x seeds x depths.",
+                note=SEARCH_NOTE),
+})
+
 NOT_YET = {
 }
 
